@@ -16,6 +16,7 @@ var burnStores = []string{"oauthCodeStore", "oauthNonceStore", "authzRequestObje
 var registerOnceStores = []string{"s2sNonceStore", "useNonceOnceStore"}
 
 func c05(r *Report) {
+	defer c05Seed5(r)
 	p := r.P
 	defer c05Audit4(r)
 	const iam = "auth/api/iam"
